@@ -834,23 +834,28 @@ pub fn run_c07(args: &Args, tier: &str, seed: u64) -> Report {
             // every (offset, kind) single fault
             for off in 0..hl {
                 for (ki, &kind) in FAULT_KINDS.iter().enumerate() {
-                    let mk = |fb: Fallback| Plan { steps: vec![], fallback: fb, fail_at: Some((off, kind)), thread_wake: false };
-                    rep.eval();
-                    rep.count("faults_blocking", 1);
-                    rep.seen("fault_kinds", format!("{kind:?}"));
-                    let fb = if (off + ki) % 3 == 0 { Fallback::Chunk(1 + off % 7) } else { Fallback::Full };
-                    let (o, _) = sync_parse(&full, mk(fb.clone()));
-                    if o != Outcome::Err(ErrK::Io(kind)) {
-                        rep.violation(format!("C07:fault-lost:blocking:{}", o.class()), format!("case {idx}: {kind:?} injected at offset {off}/{hl} gave {} (blocking); head={}", o.short(), hex(&head[..hl.min(400)])), replay.clone());
-                    }
-                    if kind == ErrorKind::WouldBlock {
-                        continue;
-                    }
-                    rep.eval();
-                    rep.count("faults_async", 1);
-                    let (o, _, _) = async_parse(&full, mk(fb));
-                    if o != Outcome::Err(ErrK::Io(kind)) {
-                        rep.violation(format!("C07:fault-lost:async:{}", o.class()), format!("case {idx}: {kind:?} injected at offset {off}/{hl} gave {} (async); head={}", o.short(), hex(&head[..hl.min(400)])), replay.clone());
+                    // persistent fault (the source keeps failing) and transient fault (fails once, then carries on): both are single faults
+                    for once in [false, true] {
+                        let mk = |fb: Fallback| Plan { steps: vec![], fallback: fb, fail_at: Some((off, kind)), fail_once: once, thread_wake: false };
+                        let mode = if once { "transient" } else { "persistent" };
+                        rep.eval();
+                        rep.count("faults_blocking", 1);
+                        rep.seen("fault_kinds", format!("{kind:?}"));
+                        rep.seen("fault_modes", mode);
+                        let fb = if (off + ki) % 3 == 0 { Fallback::Chunk(1 + off % 7) } else { Fallback::Full };
+                        let (o, _) = sync_parse(&full, mk(fb.clone()));
+                        if o != Outcome::Err(ErrK::Io(kind)) {
+                            rep.violation(format!("C07:fault-lost:blocking:{}", o.class()), format!("case {idx}: {mode} {kind:?} injected at offset {off}/{hl} gave {} (blocking); head={}", o.short(), hex(&head[..hl.min(400)])), replay.clone());
+                        }
+                        if kind == ErrorKind::WouldBlock {
+                            continue;
+                        }
+                        rep.eval();
+                        rep.count("faults_async", 1);
+                        let (o, _, _) = async_parse(&full, mk(fb));
+                        if o != Outcome::Err(ErrK::Io(kind)) {
+                            rep.violation(format!("C07:fault-lost:async:{}", o.class()), format!("case {idx}: {mode} {kind:?} injected at offset {off}/{hl} gave {} (async); head={}", o.short(), hex(&head[..hl.min(400)])), replay.clone());
+                        }
                     }
                 }
             }
